@@ -73,6 +73,10 @@ func (p *Core) Exec(w *sim.World, op sim.Op) {
 		p.execWriteAck(op)
 	case "mut":
 		p.execMut(op)
+	case "xfer":
+		p.execXfer(op)
+	case "donate":
+		p.execDonate(op)
 	case "lhv":
 		p.execLocalVerify(op)
 	case "lhop":
@@ -433,6 +437,9 @@ func (p *Core) afterBlock(ci int, res []*sim.TxResult) {
 		p.applyTap(ci, t, res)
 	}
 	p.oracleBlock(ci, res, taps, diff, pre)
+	if p.Opt.Tokens {
+		p.tokAfterBlock(ci, res)
+	}
 	w.MixSig(fmt.Sprintf("b%d:%d:%d", ci, len(res), len(taps)))
 }
 
@@ -520,6 +527,10 @@ func (p *Core) applyTx(ci int, r *sim.TxResult) {
 			p.markClosed(ci, m.PortId, m.ChannelId, r.Height)
 		}
 		w.Stats.Probe("channel_closed_by_handshake")
+	case "xfer":
+		p.applyXfer(ci, r)
+	case "donate":
+		p.applyDonate(ci, r)
 	case "send2":
 		if ps == nil {
 			return
@@ -543,8 +554,16 @@ func (p *Core) applyTx(ci int, r *sim.TxResult) {
 		out := txOutcome(r, ps.V2)
 		w.Stats.Probe(r.Spec.Label + "_" + out)
 		if out != "success" {
+			if out == "failed" {
+				p.lastRefusal[ps.Tag] = fmt.Sprintf("%s-refused-%s/%d", r.Spec.Label, r.Space, r.Code)
+			}
 			return
 		}
+		defer func() {
+			if ps.X != nil {
+				p.tokApplyRelay(ci, r, ps, r.Spec.Label)
+			}
+		}()
 		switch r.Spec.Label {
 		case "recv":
 			ps.RecvHeight = r.Height
